@@ -30,6 +30,52 @@ impl Rng {
     pub fn fork(&mut self, salt: u64) -> Rng { Rng::new(self.next() ^ salt.wrapping_mul(0xD6E8FEB86659FD93)) }
 }
 
+/// Structured payload generator shared by the families: besides random bytes it produces the shapes on which
+/// container encodings take special paths (TD0 repeated-pattern and RLE sectors, IMD compressed sectors, GCR
+/// checksums, zero padding): uniform, 2-/3-/4-periodic, runs, text made of line ends only, one differing byte,
+/// sector-aligned mixtures of these.  Returns the bytes and the name of the shape (for distribution counters).
+pub fn gen_data(rng: &mut Rng, len: usize) -> (Vec<u8>, &'static str) {
+    let a = rng.byte();
+    let b = a.wrapping_add(1 + rng.below(254) as u8);
+    match rng.below(12) {
+        0 => (vec![a; len], "uniform"),
+        1 => ((0..len).map(|i| if i % 2 == 0 { a } else { b }).collect(), "two-periodic"),
+        2 => ((0..len).map(|i| if i % 2 == 0 { 0x0d } else { 0x0a }).collect(), "crlf-only"),
+        3 => { let k = rng.range(3, 5); let pat = rng.bytes(k); ((0..len).map(|i| pat[i % k]).collect(), "k-periodic") }
+        4 => {
+            // runs of equal bytes of random lengths (RLE friendly), some runs two-periodic
+            let mut v = Vec::with_capacity(len);
+            while v.len() < len {
+                let n = rng.range(1, 300).min(len - v.len());
+                let (x, y) = (rng.byte(), rng.byte());
+                let two = rng.chance(30);
+                for i in 0..n { v.push(if two && i % 2 == 1 { y } else { x }); }
+            }
+            (v, "runs")
+        }
+        5 => {
+            // every sector-sized piece takes its own shape
+            let q = *rng.pick(&[128usize, 256, 512, 1024]);
+            let mut v = Vec::with_capacity(len);
+            while v.len() < len {
+                let n = q.min(len - v.len());
+                let (x, y) = (rng.byte(), rng.byte());
+                match rng.below(4) {
+                    0 => v.extend(std::iter::repeat(x).take(n)),
+                    1 => v.extend((0..n).map(|i| if i % 2 == 0 { x } else { y })),
+                    2 => { let mut t = vec![x; n]; let k = rng.below(n); t[k] = y; v.extend(t) }
+                    _ => v.extend(rng.bytes(n)),
+                }
+            }
+            (v, "sector-mixture")
+        }
+        6 => { let mut v = vec![a; len]; if len > 0 { let k = rng.below(len); v[k] = b; } (v, "uniform-but-one") }
+        7 => { let mut v: Vec<u8> = (0..len).map(|i| if i % 2 == 0 { a } else { b }).collect(); if len > 0 { let k = rng.below(len); v[k] = v[k].wrapping_add(1); } (v, "two-periodic-but-one") }
+        8 => (vec![0u8; len], "zeros"),
+        _ => (rng.bytes(len), "random"),
+    }
+}
+
 pub fn hx(b: &[u8]) -> String { if b.is_empty() { "-".to_string() } else { hex::encode_upper(b) } }
 pub fn unhx(s: &str) -> Vec<u8> { if s == "-" { vec![] } else { hex::decode(s).expect("hex") } }
 
